@@ -597,6 +597,9 @@ pub fn child(args: &[String]) -> i32 {
     let depth: usize = args[4].parse().unwrap();
     let seed: u64 = args[5].parse().unwrap();
     let n: usize = args[6].parse().unwrap();
+    // pause after every acknowledgement (ms): gives the parent a window to kill the process exactly at the
+    // acknowledged, quiescent point; 0 = keep going (the kill then lands in the middle of later work)
+    let pause_ms: u64 = args.get(7).and_then(|s| s.parse().ok()).unwrap_or(0);
     let ops = crash_history(seed, depth, n);
     let mut r = match open(depth, path, variant) {
         Ok(r) => r,
@@ -604,11 +607,16 @@ pub fn child(args: &[String]) -> i32 {
     };
     let out = std::io::stdout();
     for (k, op) in ops.iter().enumerate() {
-        let _ = apply(&mut r, depth, op);
-        if matches!(op, POp::Flush) {
-            let mut o = out.lock();
-            let _ = writeln!(o, "ACK {}", k + 1);
-            let _ = o.flush();
+        let res = apply(&mut r, depth, op);
+        if matches!(op, POp::Flush) && matches!(res, Ok(Ok(()))) {
+            {
+                let mut o = out.lock();
+                let _ = writeln!(o, "ACK {}", k + 1);
+                let _ = o.flush();
+            }
+            if pause_ms > 0 {
+                std::thread::sleep(std::time::Duration::from_millis(pause_ms));
+            }
         }
     }
     let mut o = out.lock();
@@ -623,11 +631,48 @@ pub fn crash_history(seed: u64, depth: usize, n: usize) -> Vec<POp> {
     let mut rng = rng_for(seed, "c16-crash-history");
     let mut counter = 0u64;
     let mut ops = vec![];
-    for _ in 0..n / 12 + 1 {
-        ops.extend(gen_history(&mut rng, depth, 10, false, &mut counter).into_iter().filter(|o| !matches!(o, POp::Flush)));
+    let cap = 1usize << depth;
+    let lim = cap.min(200);
+    // first segment: populate, so that later segments can overwrite / remove existing positions
+    ops.push(POp::Range(0, (0..lim.min(24)).map(|_| uniq(&mut counter)).collect()));
+    ops.push(POp::Meta(b"initial".to_vec()));
+    ops.push(POp::Flush);
+    let mut seg = 0usize;
+    while ops.len() < n {
+        // segments between two acknowledged flushes are of one kind each, so that a flush that is only correct
+        // after certain kinds of update (single writes, batch writes, metadata) is caught by the kill that follows
+        match seg % 5 {
+            0 => ops.extend(gen_history(&mut rng, depth, 8, false, &mut counter).into_iter().filter(|o| !matches!(o, POp::Flush))),
+            1 => {
+                // batch-only, not growing the leaf count: overwrite existing ranges, remove several indices
+                for _ in 0..rng.gen_range(1..4) {
+                    let nn = rng.gen_range(2..6usize);
+                    let s0 = rng.gen_range(0..lim.min(24) - nn.min(lim.min(24) - 1));
+                    ops.push(POp::Range(s0, (0..nn).map(|_| uniq(&mut counter)).collect()));
+                }
+                if rng.gen_bool(0.6) {
+                    ops.push(POp::Batch(0, vec![], vec![rng.gen_range(0..8), rng.gen_range(8..16), rng.gen_range(16..lim.min(24))]));
+                }
+            }
+            2 => {
+                // single-leaf updates only
+                for _ in 0..rng.gen_range(1..5) {
+                    ops.push(POp::Set(rng.gen_range(0..lim), uniq(&mut counter)));
+                }
+            }
+            3 => ops.push(POp::Meta(rand_bytes(&mut rng, 20))),
+            _ => {
+                // one batch then one delete
+                ops.push(POp::Range(rng.gen_range(0..8), (0..3).map(|_| uniq(&mut counter)).collect()));
+                ops.push(POp::Delete(rng.gen_range(0..8)));
+            }
+        }
         ops.push(POp::Flush);
-        // a burst of work right after the acknowledged flush (in flight when the kill arrives)
-        ops.push(POp::Range(0, (0..4).map(|_| uniq(&mut counter)).collect()));
+        seg += 1;
+        // sometimes work right after the acknowledged flush (in flight when the kill arrives)
+        if seg % 3 == 0 {
+            ops.push(POp::Range(30.min(cap - 4), (0..4).map(|_| uniq(&mut counter)).collect()));
+        }
     }
     ops.truncate(n);
     ops
@@ -742,13 +787,16 @@ fn crash_points(rep: &mut Rep, seed: u64, n_kills: usize) {
     let mut rng = rng_for(seed, "c16-crash");
     for kx in 0..n_kills {
         let depth = [5usize, 8, 20][kx % 3];
-        let variant = [1usize, 0, 3, 5][kx % 4];
+        // configurations without a short background flush period first: there only the explicit flush makes data durable
+        let variant = [0usize, 2, 4, 0, 1, 3, 5, 2][kx % 8];
         let hseed = seed * 1000 + kx as u64;
-        let n_ops = 60;
+        let n_ops = 70;
+        // two out of three kills hit a quiescent process right after an acknowledgement, the others land mid-work
+        let pause_ms: u64 = if kx % 3 == 2 { 0 } else { 60 };
         let base = fresh_dir(&format!("crash{kx}"));
         let path = format!("{base}/db");
         let mut ch = match std::process::Command::new(&me)
-            .args(["c16-child", &path, &variant.to_string(), &depth.to_string(), &hseed.to_string(), &n_ops.to_string()])
+            .args(["c16-child", &path, &variant.to_string(), &depth.to_string(), &hseed.to_string(), &n_ops.to_string(), &pause_ms.to_string()])
             .stdout(std::process::Stdio::piped())
             .stderr(std::process::Stdio::null())
             .spawn()
@@ -761,7 +809,7 @@ fn crash_points(rep: &mut Rep, seed: u64, n_kills: usize) {
         };
         let mut rd = BufReader::new(ch.stdout.take().unwrap());
         // wait for the target ACK, then kill after a random delay
-        let target_ack = rng.gen_range(1..=4usize);
+        let target_ack = rng.gen_range(1..=7usize);
         let mut acked = 0usize;
         let mut seen = 0usize;
         let mut line = String::new();
@@ -782,7 +830,7 @@ fn crash_points(rep: &mut Rep, seed: u64, n_kills: usize) {
                 }
             }
         }
-        let delay_ms = [0u64, 1, 3, 10, 40, 120][rng.gen_range(0..6)];
+        let delay_ms = if pause_ms > 0 { [0u64, 1, 5, 20][rng.gen_range(0..4)] } else { [0u64, 0, 1, 3, 10, 40, 120][rng.gen_range(0..7)] };
         std::thread::sleep(std::time::Duration::from_millis(delay_ms));
         unsafe {
             libc::kill(ch.id() as i32, libc::SIGKILL);
@@ -817,7 +865,7 @@ fn crash_points(rep: &mut Rep, seed: u64, n_kills: usize) {
             }
         }
         rep.ev();
-        rep.stratum(format!("crash|d{depth}|variant{variant}|delay={delay_ms}ms|acks={}", seen.min(5)));
+        rep.stratum(format!("crash|d{depth}|variant{variant}|delay={delay_ms}ms|acks={}|{}", seen.min(8), if pause_ms > 0 { "quiescent" } else { "in-flight" }));
         let t0 = std::time::Instant::now();
         match open(depth, &path, variant) {
             Ok(mut r) => {
@@ -1054,7 +1102,7 @@ pub fn run(rep: &mut Rep) {
     let seed = rep.seed;
     reopen_monitor(rep, seed, if thorough { 240 } else { 18 });
     fault_enumeration(rep, seed, if thorough { 60 } else { 5 }, if thorough { 400 } else { 90 });
-    crash_points(rep, seed, if thorough { 150 } else { 9 });
+    crash_points(rep, seed, if thorough { 200 } else { 16 });
     hostile_reopen(rep, seed, if thorough { 60 } else { 5 });
     os_level_faults(rep, seed, if thorough { 12 } else { 2 });
     rep.sample(json!({"fault_enumeration": "history replayed once per storage operation k with FAIL_AFTER = k; the API call in which the fault fired must return Err", "hook_counters": {"ops_seen": hooks::OPS_SEEN.load(Ordering::SeqCst), "faults_fired": hooks::FAULTS_FIRED.load(Ordering::SeqCst), "open_retries": hooks::OPEN_RETRIES.load(Ordering::SeqCst)}}));
